@@ -1298,8 +1298,8 @@ impl RustGenerator {
                     ));
                 }
                 let dest = self.reg_name(dst)?;
-                let left_expr = self.value_array_expr(left)?;
-                let right_expr = self.value_array_expr(right)?;
+                let left_expr = self.phi_input_expr(func, left)?;
+                let right_expr = self.phi_input_expr(func, right)?;
                 writer.line(format!("if pred_bb == {}usize {{", preds[0]))?;
                 writer.indented(1, |writer| writer.line(format!("{dest} = {left_expr};")))?;
                 writer.line(format!("}} else if pred_bb == {}usize {{", preds[1]))?;
@@ -1351,7 +1351,7 @@ impl RustGenerator {
                 writer.line(format!("{dest} = match pred_bb {{"))?;
                 writer.indented(1, |writer| {
                     for (pred, input) in preds.iter().zip(inputs.iter()) {
-                        let expr = self.value_array_expr(input)?;
+                        let expr = self.phi_input_expr(func, input)?;
                         writer.line(format!("{pred}usize => {expr},"))?;
                     }
                     writer.line(format!(
@@ -1427,12 +1427,16 @@ impl RustGenerator {
             Instruction::Delay(max_len, src, time) => {
                 let dest = self.reg_name(dst)?;
                 let src_expr = self.scalar_word_expr(func, src)?;
-                let time_expr = self.word0_expr(time)?;
+                let time_expr = self.scalar_word_expr(func, time)?;
                 writer.line("{")?;
                 writer.indented(1, |writer| {
+                    // operands first: an element access reads `memory`, which cannot be borrowed
+                    // while `state` holds its mutable borrow
+                    writer.line(format!("let delay_input = {src_expr};"))?;
+                    writer.line(format!("let delay_time = {time_expr};"))?;
                     writer.line("let state = self.get_current_statestorage();")?;
                     writer.line(format!(
-                        "{dest}[0] = state.delay({src_expr}, {time_expr}, {}usize);",
+                        "{dest}[0] = state.delay(delay_input, delay_time, {}usize);",
                         max_len
                     ))
                 })?;
@@ -1443,8 +1447,9 @@ impl RustGenerator {
                 let src_expr = self.scalar_word_expr(func, src)?;
                 writer.line("{")?;
                 writer.indented(1, |writer| {
+                    writer.line(format!("let mem_input = {src_expr};"))?;
                     writer.line("let state = self.get_current_statestorage();")?;
-                    writer.line(format!("{dest}[0] = state.mem({src_expr});"))
+                    writer.line(format!("{dest}[0] = state.mem(mem_input);"))
                 })?;
                 writer.line("}")?;
             }
@@ -1570,8 +1575,8 @@ impl RustGenerator {
             }
             Instruction::GetArrayElem(arr, idx, elem_ty) => {
                 let dest = self.reg_name(dst)?;
-                let arr_expr = self.word0_expr(arr)?;
-                let idx_expr = self.word0_expr(idx)?;
+                let arr_expr = self.scalar_word_expr(func, arr)?;
+                let idx_expr = self.scalar_word_expr(func, idx)?;
                 let elem_words = elem_ty.word_size() as usize;
                 writer.line("{")?;
                 writer.indented(1, |writer| {
@@ -1607,8 +1612,8 @@ impl RustGenerator {
                 writer.line("}")?;
             }
             Instruction::SetArrayElem(arr, idx, value, elem_ty) => {
-                let arr_expr = self.word0_expr(arr)?;
-                let idx_expr = self.word0_expr(idx)?;
+                let arr_expr = self.scalar_word_expr(func, arr)?;
+                let idx_expr = self.scalar_word_expr(func, idx)?;
                 let elem_words = elem_ty.word_size() as usize;
                 let value_expr = self.context_value_slice_expr(func, value, *elem_ty)?;
                 writer.line("{")?;
@@ -2465,6 +2470,23 @@ impl RustGenerator {
                 Ok(format!("memory.load(reg_{reg}[0], 1usize)?[0]"))
             }
             _ => self.word0_expr(value),
+        }
+    }
+
+    /// The value an `if` / `match` arm hands to its phi: a bare element access of a one-word value
+    /// (`if (c) { t.1 } else { x }`) is the address of the element and has to be loaded.
+    fn phi_input_expr(&self, func: &Function, value: &VPtr) -> Result<String, String> {
+        match value.as_ref() {
+            Value::Register(reg)
+                if self
+                    .resolve_register_getelement_type(func, *reg)
+                    .is_some_and(|ty| {
+                        ty.word_size() == 1 && !self.is_deepcopy_aggregate_type(ty)
+                    }) =>
+            {
+                Ok(format!("[{}]", self.scalar_word_expr(func, value)?))
+            }
+            _ => self.value_array_expr(value),
         }
     }
 
